@@ -29,6 +29,57 @@ func hexs(s string) string {
 	return hex.EncodeToString([]byte(s))
 }
 
+func unhexs(s string) (string, error) {
+	if s == "-" {
+		return "", nil
+	}
+	b, err := hex.DecodeString(s)
+	return string(b), err
+}
+
+// readLines reads a file of request lines (blank lines and #-comments skipped).
+func readLines(path string) ([]string, error) {
+	data, err := os.ReadFile(path)
+	if err != nil {
+		return nil, err
+	}
+	var out []string
+	if strings.HasPrefix(strings.TrimSpace(string(data)), "{") {
+		// a replay file written by ./check: collect every "request" string in it
+		var v any
+		if err := json.Unmarshal(data, &v); err != nil {
+			return nil, err
+		}
+		var walk func(x any)
+		walk = func(x any) {
+			switch x := x.(type) {
+			case map[string]any:
+				for k, y := range x {
+					if s, ok := y.(string); ok && k == "request" {
+						out = append(out, s)
+					} else {
+						walk(y)
+					}
+				}
+			case []any:
+				for _, y := range x {
+					walk(y)
+				}
+			}
+		}
+		walk(v)
+		return out, nil
+	}
+	for _, l := range strings.Split(string(data), "\n") {
+		l = strings.TrimSpace(l)
+		if l == "" || strings.HasPrefix(l, "#") {
+			continue
+		}
+		out = append(out, l)
+	}
+	return out, nil
+}
+
 func writeJSON(path string, v any) error {
 	b, err := json.MarshalIndent(v, "", " ")
 	if err != nil {
